@@ -1,8 +1,110 @@
 import Driver.Util
-open Lean
+import Paroxy.Model.Cleanup
+import Paroxy.Spec.Cleanup
+open Lean Paroxy Paroxy.Cleanup
 
 namespace Driver.C13
 
-def handlers : List (String × Handler) := []
+def txt (t : Text) : Json := Json.str (String.ofList t)
+
+def kindOf : String → Kind
+  | "COMMENT" => .comment
+  | "STRING" => .string
+  | "NEWLINE" => .newline
+  | "NL" => .nl
+  | "INDENT" => .indent
+  | "DEDENT" => .dedent
+  | "FSTRING_MIDDLE" => .fstringMiddle
+  | _ => .other
+
+/-- A token is sent as `[kindName, string, srow, scol, erow, ecol]`. -/
+def tokenOf (j : Json) : Except String Token := do
+  let a ← j.getArr?
+  match a.toList with
+  | [k, s, sr, sc, er, ec] =>
+    pure ⟨kindOf (← k.getStr?), (← s.getStr?).toList, ← sr.getInt?, ← sc.getInt?, ← er.getInt?, ← ec.getInt?⟩
+  | _ => throw "token must be [kind, string, srow, scol, erow, ecol]"
+
+def tokensOf (j : Json) : Except String (List Token) := do
+  let a ← getArr j "tokens"
+  a.toList.mapM tokenOf
+
+def passes : List (String × (Text → Text)) :=
+  [("first_comments", suppressFirstComments), ("main_guard", suppressMainGuard),
+   ("sys_path", suppressSysPath), ("tabs", expandTabs), ("preprocess", preprocess),
+   ("blank_lines", suppressBlankLines), ("useless_pass", suppressUselessPass),
+   ("strip", strip), ("finish", finish),
+   ("normalize", fun t => (normalizeComment t).1)]
+
+/-- `c13.model.pass`: one text pass of the model. `texts` is a list, answers in order. -/
+def modelPass : Handler := fun j => do
+  let name ← getStr j "name"
+  let ts ← strList (← j.getObjVal? "texts")
+  match passes.lookup name with
+  | none => throw s!"unknown pass {name}"
+  | some f =>
+    if name == "normalize" then
+      pure (Json.mkObj [("r", Json.arr (ts.map fun t =>
+        let r := normalizeComment t.toList
+        Json.arr #[txt r.1, Json.num (r.2 : Nat)]).toArray)])
+    else
+      pure (Json.mkObj [("r", Json.arr (ts.map fun t => txt (f t.toList)).toArray)])
+
+def pieceJson : Piece → Json
+  | .dropped => Json.arr #["dropped", ""]
+  | .hint s => Json.arr #["hint", txt s]
+  | .pass => Json.arr #["pass", "pass\n"]
+  | .verbatim s => Json.arr #["verbatim", txt s]
+
+def loopJson (ts : List Token) (detail : Bool) : Json :=
+  let base := [("joined", txt (loopText ts)), ("final", txt (postprocess ts)),
+    ("raises", if loopRaises ts then Json.str "IndexError" else Json.null)]
+  if detail then
+    Json.mkObj (base ++ [("emits", Json.arr ((loop ts).map fun e =>
+      Json.arr #[Json.num (e.pad : Nat), pieceJson e.piece]).toArray)])
+  else Json.mkObj base
+
+/-- `c13.model.loop`: the token loop and what follows it, on recorded token lists
+(`cases`: a list of token lists, answered in order by `r`; or a single `tokens`, with details). -/
+def modelLoop : Handler := fun j => do
+  match j.getObjVal? "cases" with
+  | .ok cs =>
+    let a ← cs.getArr?
+    let rs ← a.toList.mapM fun c => do
+      let ts ← (← c.getArr?).toList.mapM tokenOf
+      pure (loopJson ts false)
+    pure (Json.mkObj [("r", Json.arr rs.toArray)])
+  | .error _ =>
+    let ts ← tokensOf j
+    pure (loopJson ts true)
+
+/-- `c13.spec.loop`: the declarative reading of the loop, token by token:
+for each token `[isComment, isHintComment, isString, atStatementStart, docstringLike]`. -/
+def specLoop : Handler := fun j => do
+  let ts ← tokensOf j
+  let n := ts.length
+  let rows := (List.range n).map fun i =>
+    let pre := ts.take i
+    let t := ts.getD i default
+    Json.arr #[Json.bool (t.kind == .comment), Json.bool (t.kind == .comment && isHint t.str),
+      Json.bool (t.kind == .string), Json.bool (Spec.atStmtStartB pre),
+      Json.bool (Spec.docstringLikeB ts i)]
+  pure (Json.mkObj [("rows", Json.arr rows.toArray)])
+
+/-- `c13.spec.text`: the text-level predicates of the property evaluated on any text
+(the implementation's output): `noBlankLine`, and the fixed-point tests of the two final passes. -/
+def specText : Handler := fun j => do
+  let ts ← strList (← j.getObjVal? "texts")
+  pure (Json.mkObj [("r", Json.arr (ts.map fun s =>
+    let t := s.toList
+    Json.mkObj [("noBlankLine", Json.bool (Spec.noBlankLineB t)),
+      ("blankFix", Json.bool (suppressBlankLines t == t)),
+      ("passFix", Json.bool (suppressUselessPass t == t)),
+      ("hintLines", Json.arr ((splitNl t).filter Spec.isHintLine |>.map txt).toArray),
+      ("markerLines", Json.arr ((splitNl t).filter Spec.startsWithMarker |>.map txt).toArray)]).toArray)])
+
+def handlers : List (String × Handler) :=
+  [("c13.model.pass", modelPass), ("c13.model.loop", modelLoop),
+   ("c13.spec.loop", specLoop), ("c13.spec.text", specText)]
 
 end Driver.C13
